@@ -318,7 +318,15 @@ pub fn header_parser(i: &[u8]) -> IResult<&[u8], (BlockType, Headers, bool)> {
     let (i, (typ, headers)) = armor_header(i)?;
 
     // "A blank (zero length or containing only whitespace) line"
-    let (i, _) = pair(space0, line_ending).parse(i)?;
+    let (i, _) = match pair(space0, line_ending).parse(i) {
+        Ok(res) => res,
+        // The input ends in the middle of a line (no line ending seen yet): whether this is
+        // another armor header or the blank line can only be decided once the line is complete.
+        Err(nom::Err::Error(_)) if !i.contains(&b'\n') => {
+            return Err(nom::Err::Incomplete(nom::Needed::Unknown));
+        }
+        Err(err) => return Err(err),
+    };
 
     Ok((i, (typ, headers, has_leading_data)))
 }
